@@ -1012,6 +1012,10 @@ impl Translator {
                         self.translate_expr(array, offset_table, mono, st);
                         self.translate_expr(index, offset_table, mono, st);
                         self.emit(st, Instr::GetIndex(Reg::Top, Reg::Top));
+                        // arrays of void use dummy values: a void expression leaves nothing on the stack
+                        if self.get_ty(mono, expr.node()).unwrap() == SolvedType::Void {
+                            self.emit(st, Instr::Pop);
+                        }
                     }
                     _ => {
                         // interface method Index::index_get()
@@ -1841,6 +1845,14 @@ impl Translator {
             }
             IntrinsicOperation::ArrayGet => {
                 self.emit(st, Instr::GetIndex(Reg::Top, Reg::Top));
+                // arrays of void use dummy values
+                let SolvedType::Function(_, ret_ty) = self.get_ty(mono, func_node.clone()).unwrap()
+                else {
+                    unreachable!()
+                };
+                if *ret_ty == SolvedType::Void {
+                    self.emit(st, Instr::Pop);
+                }
             }
             IntrinsicOperation::ArraySet => {
                 self.emit(st, Instr::SetIndex(Reg::Top, Reg::Top));
@@ -2299,6 +2311,27 @@ impl Translator {
                                 }
                                 _ => unreachable!(),
                             }
+                        } else {
+                            // a void value has no runtime representation, but the right-hand side
+                            // (side effects) and an indexed target (bounds check) are still evaluated
+                            match &*expr1.kind {
+                                ExprKind::IndexAccess(array, index)
+                                    if matches!(
+                                        self.get_ty(mono, array.node()).unwrap(),
+                                        SolvedType::Nominal(Nominal::Array, _)
+                                    ) =>
+                                {
+                                    self.translate_expr(array, offset_table, mono, st);
+                                    self.translate_expr(index, offset_table, mono, st);
+                                    self.translate_expr(rvalue, offset_table, mono, st);
+                                    // arrays of void use dummy values
+                                    self.emit(st, Instr::PushNil(1));
+                                    self.emit(st, Instr::SetIndex(Reg::Top, Reg::Top));
+                                }
+                                _ => {
+                                    self.translate_expr(rvalue, offset_table, mono, st);
+                                }
+                            }
                         }
                     }
                     AssignOperator::PlusEq
@@ -2518,8 +2551,13 @@ impl Translator {
                 self.emit(st, Instr::PushInt(0 as AbraInt));
                 self.emit(st, Instr::EqualInt(Reg::Top, Reg::Top, Reg::Top));
                 self.emit(st, Instr::JumpIfFalse(end_label_iter.clone()));
-                let mut or_pat_decisions = HashSet::default();
-                self.handle_pat_binding(pat, offset_table, st, mono, &mut or_pat_decisions);
+                if self.get_ty(mono, pat.node()).unwrap() == SolvedType::Void {
+                    // the payload of `some(nil)` is a dummy value that no pattern consumes
+                    self.emit(st, Instr::Pop);
+                } else {
+                    let mut or_pat_decisions = HashSet::default();
+                    self.handle_pat_binding(pat, offset_table, st, mono, &mut or_pat_decisions);
+                }
                 st.loop_stack.push(EnclosingLoop {
                     start_label: start_label.clone(),
                     end_label: end_label_break.clone(),
